@@ -1,4 +1,5 @@
 import PSO.Proofs.RaftDemo
+import PSO.Proofs.BridgeTheorems
 
 /-!
 # C03 — one leader per term; a new leader already holds all committed commands
@@ -53,6 +54,23 @@ theorem leader_holds_committed_prefixes {N : Nat} {s : State} (h : Reachable N s
     (hr : (s.nodes n).role = .leader) (hm : (s.nodes m).term ≤ (s.nodes n).term) :
     (s.nodes m).log.take ((s.nodes m).commit + 1) <+: (s.nodes n).log :=
   leader_holds_committed h hr ((inv_reachable h).s.C1 m) hm
+
+/-! ## The handler-level model refines the cluster model (statements: notes/bridge.md,
+lean/PSO/Proofs/BridgeTheorems.lean; `type_of%` keeps the exact statement of the referenced theorem).
+Chain: real handler ≈ (single-step correspondence `corr.nodetick_handlers`) `PSO.NodeTick` ⊑ (these
+theorems) `PSO.Raft.step` ⊨ (above) election safety. -/
+
+/-- `request_vote` handler ⊑ `recvReqVote`: same term bump, same grant condition, reply iff vote message. -/
+theorem request_vote_handler_refines : type_of% @PSO.Bridge.onRequestVote_refines :=
+  @PSO.Bridge.onRequestVote_refines
+
+/-- `response_vote` handler ⊑ `recvVote` (counting, majority test, becoming leader appends the no-op). -/
+theorem response_vote_handler_refines : type_of% @PSO.Bridge.onResponseVote_refines :=
+  @PSO.Bridge.onResponseVote_refines
+
+/-- Election-timeout branch of `_onTick` ⊑ `timeout`. -/
+theorem tick_election_refines : type_of% @PSO.Bridge.tick_election_refines :=
+  @PSO.Bridge.tick_election_refines
 
 /-- Non-vacuity: a reachable 3-node state with a leader in term 1 that has committed two entries. -/
 example : ∃ s, Reachable 3 s ∧ (s.nodes 0).role = .leader ∧ (s.nodes 0).term = 1 ∧ (s.nodes 0).commit = 2 := by
